@@ -582,6 +582,19 @@ def argument_check(r):
                        f"[{major_sol.cn_solution._solution_nice()}]: {sorted(str(m) for m in set(before[1]) ^ set(mutations))} - the set is shared by every candidate of the call")
         return out
 
+    # a structure list given by the caller belongs to the caller (one list serves every gene of a multi-gene run)
+    from aldy import cn as cnmod
+    from aldy.common import AldyException
+    not_cfg = [a for a in gene.alleles if a not in gene.cn_configs][:1] + [mi for a in gene.alleles.values() for mi in a.minors if mi not in gene.cn_configs][:1]
+    for user in [["1", "1"]] + [["1", x] for x in not_cfg]:
+        lst = list(user)
+        try:
+            cnmod.estimate_cn(gene, Profile("user", cn_solution=lst), cov, "cbc")
+        except AldyException:
+            pass
+        n_calls[0] += 1
+        if lst != user:
+            why.append(f"ARGS estimate_cn rewrote the structure list it was handed in place: {user} -> {lst} (the same list object is handed to every gene of a multi-gene run)")
     minor.solve_minor_model = guarded
     try:
         for lst in ([A, B], [B, A]):
